@@ -51,6 +51,7 @@ ASSUMPTIONS = {
 EXPECTED_FAULTS = {"C15": ["reorder", "lossy_stack", "skip_prefilter"], "C14": ["reorder"]}
 DETERMINISM_SAMPLE = {"quick": 3, "thorough": 8}
 EXHAUSTIVE = {}
+MIN_CASES = {'quick': 350, 'thorough': 3500}
 STATE_CAP = {"quick": 1500, "thorough": 12000}
 BUDGET = {"quick": 2500, "thorough": 40000}  # scheduler decisions per run
 
@@ -572,6 +573,17 @@ def _texts(rng, n, prop="C15"):
             t = "%s %s" % ((a, b) if rng.random() < 0.6 else (b, a))
             if rng.random() < 0.3:
                 t = rng.choice(["tomorrow", "at", "friday"]) + " " + t
+        elif r < 0.8 + 0.045:
+            # a date interval next to a duration that agrees with it (the consistency rules
+            # hand back one of their arguments)
+            d1 = rng.randint(1, 20)
+            nn = rng.randint(1, 5)
+            mon = rng.choice(["11.2020", "3.2021", "nov", "märz"])
+            iv = ("%d.%s - %d.%s" % (d1, mon, d1 + nn, mon)) if mon[0].isdigit() else \
+                ("%d - %d %s" % (d1, d1 + nn, mon))
+            du = "%d %s" % (nn, rng.choice(["nacht", "nights", "days", "tage"]))
+            t = rng.choice(["%s %s" % (iv, du), "%s für %s" % (iv, du), "%s %s" % (du, iv),
+                            "%s %s für 1 tag" % (iv, du)])
         elif r < 0.8 + 0.06:
             # the same joiner / absorber word leading the text and recurring between two
             # values (a bullet "- 10.5. - 12.5.", "to 5 to 6"): the first occurrence of a
